@@ -82,6 +82,34 @@ def followups(cases):
     return out
 
 
+def prepopulated():
+    """Working directories that already hold a symbolic link leading outside (left by an earlier run, another tool or an
+    earlier push) before anything is pushed: dangling or not, relative or absolute; then one or two entries / named
+    pushes at or through it, in one archive and one archive per entry (no model prediction attached)."""
+    out = []
+    links = [(["..", "..", "x"], False), (["..", "..", "c"], False), (["..", "..", "v"], False),
+             (["x"], True), (["c"], True), (["v"], True)]
+    rel = ["d", "l"]
+    singles = [E("reg", rel), E("dir", rel), E("dir", rel + ["x", "y"]), E("dir", rel + ["x"]), E("reg", rel + ["x"]),
+               E("reg", rel + ["v"]), E("named", rel), E("named", rel + ["v"]), E("named", rel + ["x"]), E("named", rel + ["x", "y"]),
+               E("named", rel + ["..", "escaped"]), E("named", ["w"] + rel + ["..", "escaped"], nabs=True),
+               E("named", ["w"] + rel + ["x"], nabs=True), E("named", ["w"] + rel, nabs=True),
+               E("hard", ["d", "a"], tg=rel + ["v"]), E("hard", ["d", "a"], tg=rel), E("sym", rel + ["x"], tg=["v"]),
+               E("sym", ["d", "s"], tg=["l", "v"]), E("sym", ["d", "s"], tg=["l"])]
+    pairs = [[E("dir", ["d", "k"]), E("reg", rel)], [E("reg", ["d", "k"]), E("reg", rel + ["x"])],
+             [E("sym", ["d", "s"], tg=["l"]), E("reg", ["d", "s"])], [E("sym", ["d", "s"], tg=["l"]), E("reg", ["d", "s", "x"])],
+             [E("sym", ["d", "s"], tg=["l"]), E("named", ["d", "s", "x"])], [E("dir", ["d", "k"]), E("named", rel)],
+             [E("reg", ["d", "k"]), E("hard", ["d", "a"], tg=rel + ["v"]), E("reg", ["d", "a"])]]
+    for tg, tabs in links:
+        pre = {"k": "presym", "name": ["d", "l"], "nabs": False, "tg": tg, "tabs": tabs}
+        for seq in [[e] for e in singles] + pairs:
+            for split in (False, True):
+                if split and len(seq) == 1:
+                    continue
+                out.append({"hist": [pre] + seq, "failed": False, "tree": [], "nomodel": True, "split": split})
+    return out
+
+
 def run(ctx, replay=None):
     if replay:
         body = json.load(open(replay))
@@ -111,6 +139,24 @@ def run(ctx, replay=None):
             c["id"] = len(cases) + 1
             cases.append(c)
         log("  %d follow-up entries appended to trees that hold an escaping link" % len(fu))
+        pp = prepopulated()
+        for c in pp:
+            c["id"] = len(cases) + 1
+            cases.append(c)
+        # every follow-up and enumerated multi-entry archive once more with one archive per entry (a second push finds
+        # what the first one left behind)
+        extra = []
+        for c in cases:
+            if not c.get("split") and not c.get("presplit") and sum(1 for e in c["hist"] if e["k"] in ("reg", "dir", "sym", "hard")) >= 2 \
+                    and (c.get("nomodel") or c.get("risk")):
+                # the model has no notion of archive boundaries: no model prediction for the split replay
+                extra.append({"hist": c["hist"], "failed": False, "tree": [], "nomodel": True, "split": True})
+        if ctx.quick and len(extra) > 2500:
+            extra = extra[::len(extra) // 2500 + 1]
+        for c in extra:
+            c["id"] = len(cases) + 1
+            cases.append(c)
+        log("  %d sequences over a pre-populated working directory, %d sequences repeated with one archive per entry" % (len(pp), len(extra)))
         if unsafe:
             log("  L1: the model itself admits %d states in which an outside object changed (replayed below)" % unsafe)
     cf = os.path.join(ctx.sub("cases"), "cases.json")
@@ -134,7 +180,8 @@ def run(ctx, replay=None):
         seen.add((v["inv"], v["t"]))
         rec = trace_of(v["file"], v["t"], 2)[0]
         c = byid[v["t"]]
-        sc = {"id": c["id"], "hist": c["hist"], "failed": c["failed"], "tree": c["tree"], "nomodel": c.get("nomodel", False)}
+        sc = {"id": c["id"], "hist": c["hist"], "failed": c["failed"], "tree": c["tree"], "nomodel": c.get("nomodel", False),
+              "split": c.get("split", False)}
         report(ctx, "tar-sequence", v["inv"], sc, [rec],
                what="%s: %s -> outside: %s" % (v["inv"], json.dumps([[e["k"], "/".join(e["name"]), "/".join(e["tg"])]
                                                                       for e in c["hist"]]), rec["outside"]))
